@@ -135,6 +135,57 @@ def run(ctx):
             ctx.floor("C13.G1", "consumers of the claims after the guard", nuse, 1)
     judge_guard(ctx, fx, fx.view(g.name))
     table_agreement(ctx, fx, g)
+    scanned_is_processed(ctx, fx)
+
+
+def _is_json_parse(t):
+    r = (t.get("resolved") or t.get("callee") or "")
+    if r.startswith(("serde_json::from_str", "serde_json::from_slice", "serde_json::from_value", "serde_json::from_reader", "serde_json::de::from_")):
+        return True
+    if t.get("name") in ("from_str", "parse", "deserialize") and ("serde_json::Value" in (t.get("self_ty") or "") or any("serde_json::Value" in (g_ or "") or "serde_json::Map" in (g_ or "") for g_ in (t.get("gargs") or []))):
+        return True
+    return False
+
+
+def scanned_is_processed(ctx, fx):
+    """G6: the value the payload is built from is the value that was scanned: the claims handed to the payload builders (the functions
+    that create disclosures / the `_sd` lists) come from issue_sd_jwt's claims without passing a JSON parse on the way — a claim set that is
+    (re)parsed from text after the scan has members the scan never saw"""
+    import imodel
+
+    class Quiet:
+        def __getattr__(self, n):
+            return lambda *a, **k: None
+    I = imodel.Issuer(Quiet(), fx, "C13.G6")
+    builders = [b_ for b_ in (getattr(I, "obj_builder", None), getattr(I, "list_builder", None)) if b_ is not None]
+    if not getattr(I, "ok", False) or not builders:
+        ctx.missing("C13.G6", "payload builders", "cannot identify the functions that build the `_sd` lists / array placeholders")
+        return
+    import callgraph
+    bnames = set(b_.name for b_ in builders)
+    # the builders and whatever dispatches between them (mutually recursive with them)
+    inner = set(n for n in I.reach if n in bnames or (bnames & callgraph.reachable_from(I.g, [n]) and any(n in callgraph.reachable_from(I.g, [b_]) for b_ in bnames)))
+    nroot = 0
+    for F in I.fns:
+        if F.name in inner or F.kind == "closure":
+            continue
+        fv = vals(F)
+        for b, t in F.calls():
+            if t.get("resolved") not in inner:
+                continue
+            n = fv.call_node(b)
+            for i, k in enumerate(n.kids):
+                parses = [x for x in walk(k) if x.kind == "call" and _is_json_parse(x.d["term"])]
+                json_roots = [r for r in common.param_roots(k) if "serde_json::" in (F.local_ty(r) or "")]
+                if not json_roots and not parses:
+                    continue
+                nroot += 1
+                if parses:
+                    ctx.finding("C13.G6", F, "scanned-is-processed", "the claims handed to the payload builder %s come out of a JSON parse (%s) made after the reserved-name scan: members of the parsed "
+                                "value were never scanned, so `_sd` / `...` supplied in serialized form are issued" % (t["resolved"].split("::")[-1], parses[0].d["term"].get("resolved") or parses[0].d["term"].get("name")), line=t.get("line"))
+                else:
+                    ctx.ok("C13.G6", F, "scanned-is-processed", "the claims handed to %s derive from the scanned claims parameter without a parse in between" % t["resolved"].split("::")[-1], line=t.get("line"))
+    ctx.floor("C13.G6", "root calls of the payload builders", nroot, 1)
 
 
 def arms(fx, g):
@@ -153,6 +204,22 @@ def arms(fx, g):
                 out[vn] = listed.get(vn, t["otherwise"])
             return b, out
     return None, out
+
+
+def _filter_keeps_containers(fx, lp):
+    """every `.filter(p)` on the way to the loop keeps all JSON arrays and objects (`|v| v.is_object() || v.is_array()`): only scalars,
+    which have nothing beneath them, are skipped"""
+    import c03
+    fl = [x for x in walk(lp.node.kids[0]) if x.kind == "call" and x.d["term"].get("name") == "filter" and len(x.kids) == 2] if lp.node.kids else []
+    if not fl:
+        return False
+    for x in fl:
+        cl = peel(x.kids[1])
+        if cl.kind != "agg" or cl.d["agg"].get("kind") != "closure" or cl.kids:
+            return False
+        if not all(c03._closure_under_kind(fx, cl.d["agg"].get("def"), k) is True for k in ("Object", "Array")):
+            return False
+    return True
 
 
 def judge_guard(ctx, fx, g):
@@ -188,7 +255,9 @@ def judge_guard(ctx, fx, g):
         lps = loops_over(variant, None)
         full = None
         for (lp, adaptors) in lps:
-            if adaptors and any(a not in ("enumerate", "values") for a in adaptors):
+            if adaptors and any(a not in ("enumerate", "values", "filter") for a in adaptors):
+                continue
+            if "filter" in (adaptors or []) and not _filter_keeps_containers(fx, lp):
                 continue
             # recursion on the item in each iteration: next iteration unreachable from the body entry without a self call on the item
             calls_on_item = []
